@@ -4,7 +4,9 @@ Decides (shape): R1 no mutable static that is not thread_local is reachable from
 R2 every object of a class that owns transform scratch buffers has thread_local storage; R3 (fftw)
 every FFTW call other than execute/malloc/free runs under the one process-wide planner mutex; R4 no
 evaluation function parks a fresh allocation in a static, a parameter or a processor; R5 every transform
-overwrites the scratch it reads (index-set coverage); R6 evaluation reads no clock/environment/RNG.
+overwrites the scratch it reads (index-set coverage); R6 evaluation reads no clock/environment/RNG; R7 every pointer field
+of a thread_local processor refers to storage allocated by that object's constructor call (provenance through helper and
+accessor functions), never to process-wide storage.
 Not decided: data-race freedom inside libfftw3; memory-model questions of concurrent reads.
 """
 import re
@@ -204,3 +206,147 @@ def run(chk):
         # R5 scratch coverage
         from sa import coverage
         coverage.check_c06_scratch(chk, v)
+        # R7 ownership of the buffers behind the thread_local processors
+        check_processor_ownership(chk, v, procs, lib_statics)
+
+
+# ------------------------------------------------------------------------------ R7: a per-thread processor owns its buffers
+class _InlineLocal(Hooks):
+    def __init__(self, fn):
+        self.fn = fn
+
+    def want_inline(self, ex, callee, node):
+        if callee.get("record") and callee.get("record") == self.fn.get("record"):
+            return True            # the object's own helper methods (e.g. plan_fftw)
+        return bool(callee.get("static")) and callee.file == self.fn.file and not callee.get("record")
+
+
+def provenance(v, t, field_vals, tls_names, memo, depth=0):
+    """set of tags saying where the storage a pointer term refers to comes from:
+    'fresh' (allocated during this call), 'static:<name>' (process-wide storage), 'tls:<name>', 'param', 'unknown'"""
+    from sa.pairing import alloc_kind
+    out = set()
+    if not isinstance(t, tuple) or not t or depth > 12:
+        return {"unknown"}
+    k = t[0]
+    if k == "glob":
+        nm = t[1]
+        return {("tls:" if nm.split("@")[0] in tls_names else "static:") + nm}
+    if k == "new":
+        return {"fresh"}
+    if k == "sym":
+        return {"param"}
+    if k in ("int", "float", "str"):
+        return set()
+    if k == "obj":
+        name, args = t[1], t[2]
+        g = v.fn(name, required=False) if isinstance(name, str) else None
+        if g is not None and g.file.startswith(("libtfhe", "include")):
+            rp = return_provenance(v, g, tls_names, memo)
+            for tag in rp:
+                if isinstance(tag, tuple) and tag[0] == "arg":
+                    if tag[1] < len(args) and args[tag[1]] is not None:
+                        out |= provenance(v, args[tag[1]], field_vals, tls_names, memo, depth + 1)
+                else:
+                    out.add(tag)
+            return out
+        if isinstance(name, str) and (alloc_kind(name) or re.search(r"(alloc|plan_|_new|create)", name)):
+            return {"fresh"}
+        return {"unknown"}
+    if k == "fld":
+        base = t[1]
+        if base == sym.idx(sym.sym("this"), sym.ZERO) and t[2] in field_vals:
+            for val in field_vals[t[2]]:
+                out |= provenance(v, val, field_vals, tls_names, memo, depth + 1)
+            return out
+        # a value loaded from memory reached through a pointer shares that pointer's provenance
+        return provenance(v, base, field_vals, tls_names, memo, depth + 1)
+    if k in ("idx", "addr"):
+        return provenance(v, t[1], field_vals, tls_names, memo, depth + 1)
+    if k == "cast":
+        return provenance(v, t[2], field_vals, tls_names, memo, depth + 1)
+    if k == "cond":
+        return provenance(v, t[2], field_vals, tls_names, memo, depth + 1) | provenance(v, t[3], field_vals, tls_names, memo, depth + 1)
+    for st in sym.subterms(t):
+        if st is not t and st[0] in ("glob", "obj", "new", "sym", "fld"):
+            out |= provenance(v, st, field_vals, tls_names, memo, depth + 1)
+    return out or {"unknown"}
+
+
+def return_provenance(v, g, tls_names, memo):
+    """provenance tags of the value g returns; ('arg', i) = whatever argument i refers to"""
+    if g.usr in memo:
+        return memo[g.usr]
+    memo[g.usr] = {"unknown"}
+    eff, st, ex = run_function(v, g, hooks=Hooks())
+    params = {sym.sym(p["n"]): i for i, p in enumerate(g.params)}
+    out = set()
+    rets = [x for x in flat(eff) if x["e"] == "return" and x.get("val") is not None]
+    for x in rets:
+        for tag in provenance(v, x["val"], {}, tls_names, memo, 1):
+            out.add(tag)
+        # map 'param' back to the argument position when the returned term hangs off one parameter
+        root = sym.root_of(x["val"]) if x["val"][0] != "cast" else sym.root_of(x["val"][2])
+        if "param" in out:
+            out.discard("param")
+            cand = [i for s_, i in params.items() if sym.contains(x["val"], s_)]
+            for i in cand:
+                out.add(("arg", i))
+            if not cand:
+                out.add("unknown")
+    memo[g.usr] = out or {"unknown"}
+    return memo[g.usr]
+
+
+def check_processor_ownership(chk, v, procs, lib_statics):
+    vn = v.name
+    eff_an = Effects(v)
+    tls_names = {s["name"] for s in lib_statics.values() if s.get("tls")}
+    memo = {}
+    for r in procs:
+        ctors = [c for c in v.defined() if c.get("record") == r["name"] and c.get("kind") == "ctor" and not c.get("implicit") and not c.get("copy")]
+        if len(ctors) != 1:
+            chk.broken("constructor of %s not found" % r["name"])
+        eff, st, ex = run_function(v, ctors[0], hooks=_InlineLocal(ctors[0]))
+        this0 = sym.idx(sym.sym("this"), sym.ZERO)
+        field_vals = {}
+        for x in flat(eff):
+            if x["e"] == "store" and x["lv"][0] == "fld" and x["lv"][1] == this0 and x["op"] == "=":
+                field_vals.setdefault(x["lv"][2], []).append(x["val"])
+        written = set()
+        for m in v.defined():
+            if m.get("record") == r["name"] and m.get("kind") == "method":
+                for root, path in eff_an.mod(m.usr):
+                    if root == ("this",) and path:
+                        written.add(path[0])
+        ptr_fields = [f["n"] for f in r["fields"] if "*" in f["t"]]
+        chk.vcount(vn, "R7.processor_pointer_fields", len(ptr_fields))
+        for fname in ptr_fields:
+            vals = field_vals.get(fname)
+            key = "%s::%s refers to storage owned by this (per-thread) processor object" % (r["name"], fname)
+            if not vals:
+                chk.assumed("R7", key, where=ctors[0].where, detail="not assigned by the constructor", variant=vn)
+                continue
+            tags = set()
+            for val in vals:
+                tags |= provenance(v, val, field_vals, tls_names, memo)
+            shared = sorted(t for t in tags if isinstance(t, str) and t.startswith("static:"))
+            wr = fname in written
+            if shared and (wr or True):
+                # shared storage is harmless only if no transform writes through it; the transform kernels (assembly / library
+                # calls) receive these pointers, so every pointer field of the processor is treated as written unless it is const data
+                const_pointee = any(re.match(r"\s*const\b", f["t"]) for f in r["fields"] if f["n"] == fname)
+                if const_pointee and not wr:
+                    chk.proved("R7", key, where=ctors[0].where, detail="points to shared read-only data %s" % shared, variant=vn)
+                    continue
+                chk.refuted("R7", key, where=ctors[0].where,
+                            detail="the constructor installs a pointer into process-wide storage %s (%s): every thread's thread_local processor then "
+                                   "transforms in the same memory%s" % (
+                                       [s_[7:] for s_ in shared], sym.show(vals[-1])[:80],
+                                       "; written by " + ", ".join(sorted(m.name for m in v.defined() if m.get("record") == r["name"] and m.get("kind") == "method"
+                                                                      and any(root == ("this",) and path and path[0] == fname for root, path in eff_an.mod(m.usr)))) if wr else ""),
+                            variant=vn)
+            elif "unknown" in tags:
+                chk.assumed("R7", key, where=ctors[0].where, detail="provenance of %s not fully resolved (%s)" % (sym.show(vals[-1])[:60], sorted(map(str, tags))), variant=vn)
+            else:
+                chk.proved("R7", key, where=ctors[0].where, detail="allocated by the constructor call (%s)" % ", ".join(sorted(map(str, tags))), variant=vn)
